@@ -1,7 +1,7 @@
 (* Proofs/GenEq.v — the AST-translated kernels (Gen/Kernels.v, regenerated from /repo on every run)
    are extensionally equal to the hand model.  Every property theorem is stated on the hand model;
    through these lemmas it is a theorem about the code as translated today. *)
-From H2 Require Import Base.Prelude Gen.Consts Gen.Kernels Model.Windows Model.SettingsV.
+From H2 Require Import Base.Prelude Gen.Consts Gen.Kernels Model.Windows Model.WmHist Model.SettingsV.
 
 Definition wm_tuple (w : wm) : Z * Z * Z := (wm_max w, wm_cur w, wm_bp w).
 
@@ -51,6 +51,14 @@ Lemma geneq_process_bytes w n :
 Proof.
   unfold k_process_bytes, process_bytes. cbv zeta.
   exact (geneq_maybe_update_window (mkwm (wm_max w) (wm_cur w) (wm_bp w + n))).
+Qed.
+
+Lemma geneq_stream_iws_delta w d :
+  k_stream_iws_delta (wm_max w) (wm_cur w) (wm_bp w) d =
+  (wm_tuple (fst (wm_delta w d)), snd (wm_delta w d)).
+Proof.
+  unfold k_stream_iws_delta, wm_delta. cbv zeta. rewrite geneq_window_opened.
+  destruct (window_opened w d) as [w1 r]. destruct r; cbn [fst snd wm_tuple]; reflexivity.
 Qed.
 
 Lemma geneq_guard_increment_window c i :
